@@ -106,6 +106,10 @@ def gen_cases(ctx):
         v = entangled(rng, n, "random")
         for qs in ([n], [0, n + 1], list(range(n + 1)), [2**40]):
             mk("measure", n, v, rng.choice(["C", "X"]), qs, draw=float2bits(0.3))
+    # more listed qubits than the register has, all of them in range (repeats): an error, not a result and not a panic
+    for n, qs in ((2, [0, 0, 0]), (2, [1, 0, 1]), (3, [2, 2, 2, 2]), (1, [0, 0]), (2, [0] * 65), (3, [1, 2] * 40)):
+        for b in ("C", "X"):
+            mk("measure", n, entangled(rng, n, "random"), b, qs, draw=float2bits(0.3))
     # measure_n: same input, queued draws; multiset comparison
     for _ in range(20 if not ctx.thorough() else 80):
         n = rng.randrange(1, 5)
